@@ -55,7 +55,94 @@ def build():
     ensures={"bin_of_view": "implies(result is not None, forall(l, True, (l in result) == rel(self, l, right)))",
              "none_iff_no_pair": "(result is None) == forall(l, True, not rel(self, l, right))",
              "pure": "forall(l, r, True, rel(self, l, r) == rel(old(self), l, r))"}, defs=mm))
+  back = "lambda s, l, r: r in s._bwd and l in s._bwd[r]"
+  mm2 = dict(mm, back=back, seen="lambda r: exists(i, 0 <= i < idx, __iterated__[i] == r)")
+  out.append(Contract(
+    prefix="C13.twoway.mm.remove_left", target="twowaymap:TwoWayMap.remove_left",
+    file="sandbox/grist/twowaymap.py",
+    params=dict(self=MM(), left=Int), requires=inv,
+    loops={0: LoopSpec("C13.twoway.mm.remove_left.loop", index="idx", locals=dict(self=MM()),
+                       invariants={
+                         "fwd_final": "forall(l, r, True, rel(self, l, r) == (rel(old(self), l, r) and l != left))",
+                         "bwd_progress": "forall(l, r, True, back(self, l, r) == (rel(old(self), l, r) and "
+                                         "not (l == left and seen(r))))",
+                         "iterating_old_bin": "forall(i, 0 <= i < len(__iterated__), rel(old(self), left, __iterated__[i])) "
+                                              "and forall(r, rel(old(self), left, r), exists(i, 0 <= i < len(__iterated__), __iterated__[i] == r))",
+                         "no_empty": "no_empty(self)",
+                       })},
+    ensures=dict(inv, view="forall(l, r, True, rel(self, l, r) == (rel(old(self), l, r) and l != left))"),
+    defs=mm2, notes="loop over the removed bin (a set): iteration order is the ghost sequence "
+                    "__iterated__; `self` is havocked by the loop (both dicts), so the invariants "
+                    "carry the whole state"))
+  out.append(Contract(
+    prefix="C13.twoway.mm.remove_right", target="twowaymap:TwoWayMap.remove_right",
+    file="sandbox/grist/twowaymap.py",
+    params=dict(self=MM(), right=Int), requires=inv,
+    loops={0: LoopSpec("C13.twoway.mm.remove_right.loop", index="idx", locals=dict(self=MM()),
+                       invariants={
+                         "bwd_final": "forall(l, r, True, back(self, l, r) == (back(old(self), l, r) and r != right))",
+                         "fwd_progress": "forall(l, r, True, rel(self, l, r) == (rel(old(self), l, r) and "
+                                         "not (r == right and seen(l))))",
+                         "iterating_old_bin": "forall(i, 0 <= i < len(__iterated__), rel(old(self), __iterated__[i], right)) "
+                                              "and forall(l, rel(old(self), l, right), exists(i, 0 <= i < len(__iterated__), __iterated__[i] == l))",
+                         "no_empty": "no_empty(self)",
+                       })},
+    ensures=dict(inv, view="forall(l, r, True, rel(self, l, r) == (rel(old(self), l, r) and r != right))"),
+    defs=mm2))
+  # ---- many-to-one: TwoWayMap(left=set, right="single"), the row -> key map of simple lookups -----
+  MO = lambda: Obj("TwoWayMap", real_cls=twowaymap.TwoWayMap, _fwd=MapOf(Int, Int),
+                   _bwd=MapOf(Int, SetOf(Int)), consts={"_left_bin": SET, "_right_bin": SINGLE})
+  mo = {
+    "rel": "lambda s, l, r: l in s._fwd and s._fwd[l] == r",
+    "sync": "lambda s: forall(l, r, True, rel(s, l, r) == (r in s._bwd and l in s._bwd[r]))",
+    "no_empty": "lambda s: forall(r, r in s._bwd, bool(s._bwd[r]))",
+  }
+  out.append(Contract(
+    prefix="C13.twoway.single.insert", target="twowaymap:TwoWayMap.insert", file="sandbox/grist/twowaymap.py",
+    params=dict(self=MO(), left=Int, right=Int), requires=inv,
+    ensures=dict(inv, view="forall(l, r, True, rel(self, l, r) == ((l == left and r == right) or "
+                           "(l != left and rel(old(self), l, r))))"), defs=mo,
+    notes="the row's previous key loses the row (overwrite semantics of the 'single' bin)"))
+  out.append(Contract(
+    prefix="C13.twoway.single.remove", target="twowaymap:TwoWayMap.remove", file="sandbox/grist/twowaymap.py",
+    params=dict(self=MO(), left=Int, right=Int), requires=inv,
+    ensures=dict(inv, view="forall(l, r, True, rel(self, l, r) == (rel(old(self), l, r) and "
+                           "not (l == left and r == right)))"), defs=mo))
+  out.append(Contract(
+    prefix="C13.twoway.single.lookup_left", target="twowaymap:TwoWayMap.lookup_left",
+    file="sandbox/grist/twowaymap.py",
+    params=dict(self=MO(), left=Int), requires=inv,
+    ensures={"key_of_view": "implies(result is not None, rel(self, left, result))",
+             "none_iff_unmapped": "(result is None) == forall(r, True, not rel(self, left, r))"}, defs=mo))
   return out
 
 
 CONTRACTS = build()
+
+
+# ---- native runners: the REAL TwoWayMap with the model's two dicts installed -------------------
+def _real_map(view, single):
+  import twowaymap
+  m = twowaymap.TwoWayMap(left=set, right="single" if single else set)
+  m._fwd = {k: (v if single else set(v)) for k, v in view._fwd.items()}
+  m._bwd = {k: set(v) for k, v in view._bwd.items()}
+  return m
+
+
+def _map_view(m, single):
+  import types
+  return types.SimpleNamespace(_fwd={k: (v if single else set(v)) for k, v in m._fwd.items()},
+                               _bwd={k: set(v) for k, v in m._bwd.items()})
+
+
+def _n_map(method, single):
+  def run(args):
+    m = _real_map(args["self"], single)
+    res = getattr(m, method)(*[args[k] for k in args if k != "self"])
+    if isinstance(res, set): res = set(res)
+    return NativeOutcome(res, {"self": _map_view(m, single)})
+  return run
+
+
+for _c in CONTRACTS:
+  _c.native = _n_map(_c.prefix.split(".")[-1], ".single." in _c.prefix)
